@@ -1,7 +1,8 @@
 ----------------------------- MODULE LineTrace -----------------------------
 (* Trace validation for the first half of C09.  Lines (written by `vh lines`):
    {"ev":"line","text":"the line","t1":"MarshalText of the decoded record","t2":"MarshalText after decoding t1",
-    "same":B (the line and t1 compile to the same keys and values),"err":""}                                     *)
+    "same":B (the line and t1 compile to the same keys and values),
+    "t1c":"MarshalText of a record AFTER it has been compiled (MarshalMap) - the order of dnsrocks-selftest","err":""}                                     *)
 EXTENDS Sequences, Integers, Json, TLC
 
 Trace == ndJsonDeserialize("trace.ndjson")
@@ -9,6 +10,7 @@ VARIABLE l
 Verdict(e) == IF e.err # "" THEN "well-formed-line-rejected"
               ELSE IF ~e.same THEN "normal-form-compiles-differently"
               ELSE IF e.t1 # e.t2 THEN "normal-form-not-stable"
+              ELSE IF e.t1c # e.t1 THEN "compiling-a-record-changes-its-text"
               ELSE "ok"
 Init == l = 1
 Next == /\ l <= Len(Trace)
